@@ -91,9 +91,11 @@ pub trait Property: Sync + Send {
     fn assumptions(&self) -> Vec<String> {
         vec![]
     }
-    /// signature used to match `known:` lines of known_findings.txt
-    fn signature(&self, case: &Case, _msg: &str) -> String {
-        case.op.clone()
+    /// signature used to match `known:` lines of known_findings.txt: the operation plus the failing call
+    /// site / form as named at the start of the failure message, with numbers masked - specific enough that a
+    /// different violation of the same property (another form, another kind of failure) is still reported
+    fn signature(&self, case: &Case, msg: &str) -> String {
+        default_signature(case, msg)
     }
     /// optional deterministic phase run once by the driver (e.g. build matrix); returns extra
     /// coverage keys, or a failure (replay text, message).
@@ -111,6 +113,41 @@ pub trait Property: Sync + Send {
     fn hang_is_violation(&self) -> bool {
         false
     }
+}
+
+pub fn default_signature(case: &Case, msg: &str) -> String {
+    // the call site / form is the part of the message before the first separator
+    let mut end = msg.len();
+    for sep in [": ", " returned", " panicked", " = ", " is not", " differs"] {
+        if let Some(i) = msg.find(sep) {
+            end = end.min(i);
+        }
+    }
+    let msg = &msg[..end];
+    let mut out = String::new();
+    let mut prev_hash = false;
+    for ch in msg.chars().take(160) {
+        let c = if ch.is_ascii_digit() || (ch.is_ascii_hexdigit() && prev_hash) {
+            '#'
+        } else if ch.is_whitespace() {
+            '_'
+        } else {
+            ch
+        };
+        if c == '#' {
+            if !prev_hash {
+                out.push('#');
+            }
+            prev_hash = true;
+        } else {
+            prev_hash = false;
+            out.push(c);
+        }
+        if out.len() >= 90 {
+            break;
+        }
+    }
+    format!("{}:{}", case.op, out)
 }
 
 pub struct DriverCtx {
